@@ -277,7 +277,7 @@ def skel_Server_handleWrapped : List String := [
   "defer{",
   "funclit{",
   "recover",
-  "if p != nil {",
+  "if p != nil || !finished {",
   "}",
   "}",
   "call funclit",
@@ -286,6 +286,12 @@ def skel_Server_handleWrapped : List String := [
   "return ",
   "}",
   "call handler",
+  "if err != nil {",
+  "assert Error",
+  "if ok {",
+  "}",
+  "call err.Error",
+  "}",
   "return "
 ]
 
